@@ -22,11 +22,12 @@ package patch
 //@   at call (*astdiff.Snapshot).Diff set snapCurrent = result0
 //@   at call engine.NewChangelog set lastChangelog = result0
 //@   at call engine.NewChangelog set changelogsMade = changelogsMade + 1
+//@   at call (*engine.Change).Match assert [C09,C10] every-change-is-tried-in-its-turn-on-the-file-as-it-stands: arg0 == f.prog.Changes[#k] && arg1 == base
 //@   at call (*engine.Change).Replace assert [C17] every-change-records-into-a-changelog-of-its-own: arg2 == lastChangelog && changelogsMade - old(changelogsMade) == changelogsUsed - old(changelogsUsed) + 1
 //@   at call (*engine.Change).Replace set changelogsUsed = changelogsUsed + 1
 //@   at call (*astdiff.Snapshot).Diff assert [C17] the-snapshot-is-advanced-with-the-regions-of-this-change: unbox(arg2, "S_engine_Changelog") == lastChangelog
 //@   at call patch.cleanupFilePos assert [C17] only-the-regions-of-this-change-are-cleaned-up: arg1 == lastChangelog
-//@   assigns group(ast), matchCount, replFail, sitesReplaced, restructured, inspections, importFailures, importsDeleted, lastChangelog, changelogsMade, changelogsUsed, snapCurrent, allof("F.S_astdiff_value.Comments")
+//@   assigns group(ast), matchCount, replFail, sitesReplaced, restructured, inspections, importFailures, importsDeleted, deleteCalls, cleanups, commentsLeft, lastChangelog, changelogsMade, changelogsUsed, snapCurrent, allof("F.S_astdiff_value.Comments")
 //@   at call go/parser.ParseFile assert [C12,C14] the-file-is-parsed-into-the-file-set-the-patch-was-compiled-with: arg0 == f.fset
 //@   at call go/parser.ParseFile assert [C11,C17] targets-are-parsed-with-comments-and-resolved-identifiers: arg3 == const("go/parser.AllErrors") + const("go/parser.ParseComments")
 //@   at call go/format.Node assert [C12,C14] printed-with-the-same-file-set: arg1 == f.fset
